@@ -7,7 +7,10 @@ func emitAll(repo string) {
 	t := loadTree(repo)
 	emitFs(t)
 	emitFatal(t)
-	emitListIdx(t) // listidx.go: listIndexSites (C18)
+	emitListIdx(t)      // listidx.go: listIndexSites (C18)
+	emitPhases(t)       // phases.go: mainPhases, phaseCallSites (C17, C18)
+	emitCleanReads(t)   // phases.go: cleanReadSites (C17)
+	emitPatternSites(t) // phases.go: patternSites (C18)
 	// determinism area (C08, C07): genstate.go, mapsites.go
 	emitGenState(repo)
 	emitMapSites(repo)
@@ -19,4 +22,6 @@ func emitAll(repo string) {
 	emitTmpl(repo)
 	// rest area (C06): restfacts.go (restDefaultHeaders, restBodyVerbs)
 	emitRestFacts(repo)
+	// `new` area and every generator package: flagguards.go (flagGuards, flagReads)
+	emitFlagGuards(t)
 }
